@@ -248,6 +248,10 @@ namespace pc
     {
         // includes CR, LF, digits and hex letters so that body bytes can be mistaken for framing
         static const char alpha[] = "a\r\n0b1\rF;:\n9 z";
+        // salts from 100 on: binary fill (bytes that sign-extend to EOF / terminate C strings), the same byte at
+        // every offset so that whatever boundary the writer has inside the body falls on it
+        if (salt >= 100)
+            return std::string(n, "\xff\x00\x80"[(salt - 100) % 3]);
         std::string s;
         for (size_t i = 0; i < n; ++i)
             s += alpha[(i * 7 + salt) % (sizeof alpha - 1)];
